@@ -316,10 +316,14 @@ class LBCheck(BaseCheck):
       node_ = next((n_ for n_ in w.nodes if n_.channel is ch_ and n_.endpoint is not None), None)
       if node_ is not None:
         ob('load:')
-        if attributed_load(node_) != w.model_out(ch_):
+        # completions of other requests of this member that are travelling up right now (this delivery is nested
+        # inside one of them: a Close() that fails what is in flight, run from a completion's own bookkeeping):
+        # the balancer lets go of a request before it hands the completion on, so it may have released those
+        transit_ = sum(1 for r_ in w.completing if r_ is not done_req and r_['channel'] is ch_ and not r_['deliveries'])
+        if not (w.model_out(ch_) - transit_ <= attributed_load(node_) <= w.model_out(ch_)):
           violate('load:not-released-at-delivery', 'the completion of request %d was handed to the sink above the balancer while '
-                  'the balancer still attributes load %d to %r (%d of its requests are outstanding)' % (
-                    done_req['id'], attributed_load(node_), ch_, w.model_out(ch_)), {}, {'step': w.step})
+                  'the balancer still attributes load %d to %r (%d of its requests are outstanding, %d of them with their completion '
+                  'on its way up)' % (done_req['id'], attributed_load(node_), ch_, w.model_out(ch_), transit_), {}, {'step': w.step})
       # from the response handler of the sink above the balancer: the completed request is not
       # outstanding any more, a follow-up dispatched right here must see that
       if not opened[0] or ss.pending or ss.loading or ss.closed or rng.random() > 0.1:
